@@ -2737,6 +2737,11 @@ static Type *struct_decl(Token **rest, Token *tok) {
       bits += mem->ty->size * 8;
     }
 
+    // [psABI 3.1.2] The type of an unnamed bitfield does not affect the
+    // alignment of the struct.
+    if (mem->is_bitfield && !mem->name)
+      continue;
+
     if (!ty->is_packed && ty->align < mem->align)
       ty->align = mem->align;
   }
@@ -2757,6 +2762,10 @@ static Type *union_decl(Token **rest, Token *tok) {
   // are already initialized to zero. We need to compute the
   // alignment and the size though.
   for (Member *mem = ty->members; mem; mem = mem->next) {
+    // An unnamed bitfield in a union occupies no storage of its own
+    // and does not affect the alignment.
+    if (mem->is_bitfield && !mem->name)
+      continue;
     if (ty->align < mem->align)
       ty->align = mem->align;
     if (ty->size < mem->ty->size)
